@@ -96,7 +96,7 @@ def r2_counts_and_margin(ctx):
             mm = re.fullmatch(r"permutations\((\w+), len\(\1\)\)|permutations\((\w+)\)", pk)
             missing = (mm.group(1) or mm.group(2)) if mm else None
             miss = astx.unique_def(f.node, missing) if missing else None
-            okmiss = isinstance(miss, ast.ListComp) and [bool_key(Normalizer(None, inline=False).guard(t)) for t in miss.generators[0].ifs] == [f"not in({miss.generators[0].target.id}, {b}.ranking)"] \
+            okmiss = isinstance(miss, astx.LCOMP) and [bool_key(Normalizer(None, inline=False).guard(t)) for t in miss.generators[0].ifs] == [f"not in({miss.generators[0].target.id}, {b}.ranking)"] \
                 and astx.is_name(miss.elt, miss.generators[0].target.id)
             cl = astx.unique_def(f.node, astx.u(miss.generators[0].iter)) if okmiss and isinstance(miss.generators[0].iter, ast.Name) else None
             okmiss = okmiss and cl is not None and astx.u(cl) == astx.A(f"[{{cand}} for cand in {f.params[1]}.candidates]")
@@ -116,7 +116,7 @@ def r2_counts_and_margin(ctx):
             rv = kw["ranking"]
             rv = astx.unique_def(f.node, rv.id) if isinstance(rv, ast.Name) else rv
             rk = astx.u(rv) if rv is not None else ""
-            okr = re.fullmatch(rf"{b}\.ranking \+ tuple\(\[frozenset\((\w+)\) for \1 in {perm}\]\)", rk) is not None
+            okr = rk == astx.A(f"{b}.ranking + tuple([frozenset(c) for c in {perm}])")
             fill_lits = literals(Normalizer(f.node, inline=False, int_atoms=lambda a: True).conj(astx.path_condition(f.node, c, pm)))
             want = literals(Normalizer(None, inline=False, int_atoms=lambda a: True).conj([(ast.parse(f"len({b}.ranking) < {f.params[2]}", mode="eval").body, True)]))
             d = f"weight={wk}; ranking={rk}; perms={pk}; under {sorted(fill_lits)}"
@@ -244,7 +244,7 @@ def r3_tiers(ctx):
     rv = astx.unique_def(f.node, rv.id) if isinstance(rv, ast.Name) else rv
     good = False
     d = astx.u(rv) if rv is not None else ""
-    if isinstance(rv, ast.ListComp):
+    if isinstance(rv, astx.LCOMP):
         srt = rv.generators[0].iter
         if isinstance(srt, ast.Call) and astx.u(srt.func) == "sorted":
             kw = {k.arg: k.value for k in srt.keywords}
